@@ -360,6 +360,8 @@ def contains(eng, c, x):
         if src is not None:
             return contains(eng, src, x)
         raise EngineError('membership in iterator')
+    if isinstance(c, Obj) and 'contains' in c.__dict__:
+        return contains(eng, c.__dict__['contains'], x)
     if isinstance(c, Box) and c.cd is not None:
         if isinstance(x, SV):
             return eng.Or(*[eng.eq(x, k) for k in c.cd])
@@ -368,6 +370,10 @@ def contains(eng, c, x):
         return False
     ty = type_of(c)
     e = to_z3(c)
+    et = ty.k if isinstance(ty, TMap) else (ty.t if isinstance(ty, (TSet, TSeq)) else None)
+    if isinstance(x, SV) and isinstance(x.ty, TOpt) and et is not None and x.ty.t == et:
+        # None is never a member of a container of plain values
+        return eng.And(z3.Not(x.ty.is_none(x.e)), contains(eng, c, SV(et, x.ty.get(x.e))))
     if isinstance(ty, TMap):
         k = _coerce_key(x, ty.k)
         return False if k is None else ty.has(e, k)
@@ -435,6 +441,11 @@ def getattr_value(eng, v, attr):
     if isinstance(v, ExcValue):
         if attr == 'args':
             return tuple(v.args)
+    if isinstance(v, NT) and attr in v._names:
+        return v[v._names.index(attr)]
+    if isinstance(v, SV) and isinstance(v.ty, TOpt):
+        eng.maybe_raise(z3.Not(v.ty.is_none(v.e)), 'AttributeError')
+        return getattr_value(eng, wrap(v.ty.t, v.ty.get(v.e)), attr)
     kind = value_kind(v)
     h = eng.attr_hooks.get((kind, attr))
     if h is not None:
@@ -535,6 +546,8 @@ def getitem(eng, v, k):
             res = eng.ite(c, vv, res)
         return res
     if isinstance(v, Obj):
+        if '__getitem__' in v.attrs:
+            return eng.call(v.attrs['__getitem__'], [k], {})
         k_ = v.__dict__.get('klass')
         if k_ is not None and k_.lookup('__getitem__') is not None:
             return eng.call_closure(k_.lookup('__getitem__').bind(v), [k], {})
@@ -561,6 +574,9 @@ def getitem(eng, v, k):
         idx = norm_index(eng, k, ty.len(e))
         return wrap(ty.t, ty.at(e, idx), parent, idx)
     if isinstance(ty, TMap):
+        if isinstance(k, SV) and isinstance(k.ty, TOpt) and k.ty.t == ty.k:
+            eng.maybe_raise(z3.Not(k.ty.is_none(k.e)), 'KeyError')      # None is not a key
+            k = SV(ty.k, k.ty.get(k.e))
         kk = _coerce_key(k, ty.k)
         if kk is None:
             eng.maybe_raise(False, 'KeyError')
@@ -713,6 +729,9 @@ def setitem(eng, c, k, v):
 
 
 def delitem(eng, c, k):
+    if isinstance(c, Box) and isinstance(c.ty, TSeq):
+        list_pop(eng, c, k)
+        return
     if not isinstance(c, Box) or not isinstance(c.ty, TMap):
         raise EngineError('del on %r' % (c,))
     dict_remove_key(eng, c, k, True)
@@ -748,7 +767,20 @@ def _simp_n(n):
     return v if isinstance(v, int) and not isinstance(v, bool) else n
 
 
+class OneShot:
+    """an iterable that can be traversed only once (generator, iterator): the weakest thing a parameter documented as
+    'iterable' may be.  The second traversal yields nothing."""
+
+    def __init__(self, seq):
+        self.seq, self.consumed = seq, False
+
+
 def make_iter(eng, v):
+    if isinstance(v, OneShot):
+        if v.consumed:
+            return IterV(0, None, concrete=[])
+        v.consumed = True
+        return make_iter(eng, v.seq)
     if isinstance(v, IterV):
         return v
     if isinstance(v, (tuple, list)):
@@ -1032,6 +1064,10 @@ def b_str(eng, x=''):
 
 
 def b_tuple(eng, x=()):
+    if isinstance(x, (Box, SV)) and isinstance(type_of(x), TSeq) and x.ty is not None:
+        it = make_iter(eng, x)
+        if it.concrete is None and not isinstance(it.n, int):
+            return SV(type_of(x), to_z3(x))      # tuple(seq) of symbolic length: the same sequence as an immutable value
     return tuple(eng.concrete_list(x))
 
 
@@ -1761,6 +1797,17 @@ def install(eng):
     reg('ite', lambda e, c, a, b: e.ite(e.truth(c), a, b))
     reg('dom', lambda e, m: Box(TSet(type_of(m).k), type_of(m).dom(to_z3(m))))
     reg('is_none', lambda e, x: e.eq(x, None))
+
+    def raw_eq(e, a, b):
+        ta = type_of(a) or type_of(b)
+        return to_z3(a, ta) == to_z3(b, ta)
+    reg('raw_eq', raw_eq)
+
+    def set_heap(e, name, value):
+        if isinstance(value, Box):
+            value = Box(value.ty, value.e)
+        e.heap[name] = value
+    reg('set_heap', set_heap)   # ghost: assign a global ghost variable      # identity of two stored values (z3 term equality), stronger than python ==
     reg('int_of_str', lambda e, x: wrap(TInt, e.uf('int_of_cstr', [TCStr], TInt)(to_z3(x, TCStr))) if type_of(x) == TCStr
         else wrap(TInt, e.uf('int_of_str', [TStr], TInt)(to_z3(x, TStr))))
     reg('is_int_literal', lambda e, x: e.uf('is_int_literal_c', [TCStr], TBool)(to_z3(x, TCStr)) if type_of(x) == TCStr
